@@ -2,7 +2,7 @@
 From Coq Require Import List String Ascii ZArith. Import ListNotations.
 From Coq Require Import List Bool.
 From SV Require Import Lib.Str Model.Types Model.Naming Model.Api Model.Back Proofs.GenProofs.
-From SV Require Import Model.FrontSmall Model.View Model.Front Proofs.WalkProofs Proofs.AttrProofs Proofs.WalkerTableProofs Proofs.ModuleProofs.
+From SV Require Import Model.FrontSmall Model.View Model.Front Proofs.WalkProofs Proofs.AttrProofs Proofs.WalkerTableProofs Proofs.ModuleProofs Model.Run Proofs.RunMoreProofs.
 
 (* the attribute block contains one entry per public attribute (type-variable attributes excepted), no more *)
 Theorem C03_class_attributes_once : forall classes rmap nc ats inner acc names s r s',
@@ -78,6 +78,11 @@ Theorem C03_module_stub_inventory : forall classes rmap nc m s text pkg s',
            module_header nc pkg ++ imports_string nc s' ++ cat fs ++ cat cs ++
            cat (map (fun e => NL ++ enum_string nc e ++ NL) (m_enums m)).
 Proof. exact module_string_inventory. Qed.
+(* ... of every completed run of the whole tool: the API object the stubs and the JSON file are made from *)
+Theorem C03_run_attribute_names_unique : forall v nc fs0 out, run v nc fs0 = Ok out ->
+  Forall (fun m => Forall cls_ok (m_classes m)) (api_modules (out_api out)) /\
+  Forall (fun kv : str * cls => cls_ok (snd kv)) (api_classes (out_api out)).
+Proof. exact run_attribute_names_unique. Qed.
 Print Assumptions C03_class_attributes_once.
 Print Assumptions C03_class_methods.
 Print Assumptions C03_front_module_inventory.
@@ -89,3 +94,4 @@ Print Assumptions C03_class_child_is_the_source_set.
 Print Assumptions C03_enum_child_is_the_source_set.
 Print Assumptions C03_enum_test_is_the_source_test.
 Print Assumptions C03_module_stub_inventory.
+Print Assumptions C03_run_attribute_names_unique.
